@@ -384,7 +384,7 @@ def run(out):
             c = mk_ctor(k, [(u, ('int', 1))])
             ctor_cases += [c + [0], c + [1], c + [2]]
         ctor_cases.append(mk_ctor(k, []) + [0])
-        for _ in range(40 if out.tier == 'quick' else 400):
+        for _ in range(40 if out.tier == 'quick' else 3000):
             kw, seen = [], set()
             for _ in range(rng.randrange(1, 4)):
                 a = rng.choice(names) if rng.random() < 0.9 else rng.choice(foreign or names)
@@ -395,7 +395,7 @@ def run(out):
             c = mk_ctor(k, kw)
             ctor_cases.append(c + [rng.choice([0, 1])])
     hist_cases = []
-    nh = 60 if out.tier == 'quick' else 600
+    nh = 60 if out.tier == 'quick' else 5000
     for k, (name, attrs, _, _) in enumerate(canon.KINDS):
         for _ in range(nh):
             kw = []
